@@ -741,9 +741,12 @@ def prep_case_lit(c):
 # ---------------------------------------------------------------- shared correspondence runs
 def corr_single(ctx, res, stats):
     """consistent_sampling alone: exhaustive small domain + random stream."""
-    nmax = ctx.n(5, 5)
-    cases = exhaustive_cases(ctx.rng, nmax, all_orders_upto=ctx.n(3, 4), cont_all=not ctx.quick, stats=stats)
-    cases += random_cs_cases(ctx.rng, ctx.n(250, 4000), stats=stats)
+    if ctx.quick:   # <= 5 cards: every style pattern x size vector (+ one continuation each); all orders for <= 3 cards
+        cases = exhaustive_cases(ctx.rng, 5, all_orders_upto=3, cont_all=False, stats=stats)
+    else:           # all orders for <= 4 cards; and, for <= 5 cards, continuation from EVERY smaller-or-equal size vector
+        cases = exhaustive_cases(ctx.rng, 4, all_orders_upto=4, cont_all=False, stats=stats)
+        cases += exhaustive_cases(ctx.rng, 5, all_orders_upto=0, cont_all=True, stats=stats)
+    cases += random_cs_cases(ctx.rng, ctx.n(250, 2000), stats=stats)
     cr = C.run_corr(ctx.pid, "cs", IMPORTS, "cs_case", cases, cs_case_lit, "agree_cs", shard=120, show="show_cs")
     res.corr.append(("CVR.consistent_sampling (fresh and continued; thresholds; sampled flags) vs Sampling.consistent_sampling",
                      cr, cs_case_json))
